@@ -215,7 +215,9 @@ let parse_wcmd (toks : string list) : wcmd =
   | ["newopts"; a; opts] -> WNewOpts (o a, dec_opt opts)
   | ["readfile"; a; p; dl; cm] -> WReadFile (o a, dec p, dec dl, dec cm)
   | ["readdirs"; a; d1; d2; nm; sf; dl; cm] -> WReadDirs (o a, dec_opt d1, dec_opt d2, name_opt nm, dec_opt sf, dec dl, dec cm)
-  | ["readconfig"; a; pr; us; nm; sf; dl; cm] -> WReadConfig (o a, dec_opt pr, dec_opt us, name_opt nm, dec_opt sf, dec dl, dec cm)
+  | ["readconfig"; a; pr; us; nm; sf; dl; cm] ->
+      let usr = (match dec_opt us with Some (x :: rest) when int_of_n x = 64 -> Some rest | y -> y) in     (* "@/x" = <scratch root>/x *)
+      WReadConfig (o a, dec_opt pr, usr, name_opt nm, dec_opt sf, dec dl, dec cm)
   | ["history"; d1; d2; nm; sf; dl; cm] -> WHistory (dec_opt d1, dec_opt d2, name_opt nm, dec_opt sf, dec dl, dec cm)
   | ["writeto"; a; d; f] -> WWriteTo (o a, dec d, dec f)
   | ["errloc"] -> WErrLoc
@@ -242,6 +244,14 @@ let () =
         | ["freenull"] -> print_endline "rc=0"
         (* harness-only actions that must not change any result: a change of the working directory after the reads of
            the scenario, and a permission requirement every file of the harness satisfies *)
+        | ["getnull"; o; _kd; g; k] ->
+            (* a typed getter called with a NULL result pointer: the look-up comes first (its refusals are reported as
+               usual), a found key gives ECONF_ARGUMENT_IS_NULL_VALUE (22) and nothing is written anywhere *)
+            let (_, r) = wstep !w (parse_wcmd ["get"; o; "string"; g; k; "-"]) in
+            let txt = show_wout r in
+            let rc = (try Scanf.sscanf txt "rc=%d" (fun d -> d) with _ -> -1) in
+            if rc = 1 || rc = 2 || rc = 4 || rc = 5 || rc = 6 || rc < 0 then print_endline (if rc < 0 then txt else Printf.sprintf "rc=%d" rc)
+            else print_endline "rc=22"
         | ["chdir"; _] -> print_endline "rc=0"
         | ["cbnest"; _; _; _; _] -> print_endline "rc=0"
         | ["readfile"; _; p; dl; cm] when p = "-" || dl = "-" || cm = "-" ->
